@@ -215,6 +215,7 @@ def run(rec, F, exceptions=None, only_adts=None, only_fields=None):
         if exk not in used_exc:
             rec.unan(R, "%s.%s" % exk, "exception entry no longer needed (field is traced or gone)")
     run_paths(rec, F, bearing)
+    run_generic_params(rec, F)
 
 
 # --- F5.p ------------------------------------------------------------------
@@ -392,6 +393,47 @@ def run_paths(rec, F, bearing):
                     rec.finding(R, "F5.p/%s/arm/%s::%s" % (im["adt"] or im["self"], lastseg(sv[0]), var),
                                 "trace() of %s: the arm for %s::%s (gc-bearing payload) contains no trace call" % (im["self"], lastseg(sv[0]), var), loc=fn.loc, fn=fn.path)
     rec.floor(R, "enum arms with gc-bearing payload in trace bodies", n, 10)
+
+
+def run_generic_params(rec, F):
+    """F5.g — generic containers: every type parameter of the traced type is traced"""
+    R = rec.rule("F5.g", "the Trace impl of every generic container reaches Trace::trace for each of its type parameters (keys as well as values, header as well as elements)")
+    n = 0
+    for im in trace_impls(F):
+        m = re.match(r"^([\w:]+)<(.*)>$", im["self"])
+        if not m or not im["adt"] or im["adt"] not in F.adts:
+            continue
+        params = [p.strip() for p in sem._split_generics(m.group(2))]
+        params = [p for p in params if re.match(r"^[A-Z]\w*$", p)]
+        if not params:
+            continue
+        tr = [it for it in im["items"] if it["name"] == "trace"]
+        fn = F.fn(tr[0]["path"]) if tr else None
+        if fn is None:
+            continue
+        seen = set()
+
+        def visit(f, depth=0):
+            if depth > 3:
+                return
+            for bi, t in f.calls():
+                if is_tr(t):
+                    for p in params:
+                        if re.search(r"\b%s/#\d+" % re.escape(p), t["g"]):
+                            seen.add(p)
+                    # delegation to another generic Trace impl instantiates all of its params
+            for l, cp in sem.closure_paths_in(f).items():
+                c = F.fn(cp)
+                if c is not None:
+                    visit(c, depth + 1)
+        is_tr = sem.is_trace_call
+        visit(fn)
+        n += 1
+        missing = [p for p in params if p not in seen]
+        rec.inst(R, im["self"], ok=not missing, loc=fn.loc, note="params %s traced %s" % (params, sorted(seen)))
+        if missing:
+            rec.finding(R, "F5.g/%s/%s" % (im["adt"], ",".join(missing)), "trace() of %s never reaches Trace::trace for its type parameter(s) %s: whatever the container holds in that position is invisible to the collector" % (im["self"], missing), loc=fn.loc, fn=fn.path)
+    rec.floor(R, "generic Trace impls", n, 6)
 
 
 def run_kind_arms(rec, R, F, fn):
